@@ -117,6 +117,10 @@ class C12Machine(RuleBasedStateMachine):
     def fd_filestat_get(self, fd, unstable):
         self.ex.fd_filestat_get(fd, unstable)
 
+    @rule(fd=fds, unstable=st.booleans())
+    def fd_fdstat_get(self, fd, unstable):
+        self.ex.fd_fdstat_get(fd, unstable)
+
     @rule(op=st.sampled_from(['unlink_file', 'rename', 'rename+recreate']), name=st.sampled_from(wasifs.FILE_NAMES), unstable=st.booleans())
     def name_changes(self, op, name, unstable):
         # the NAME of a (possibly open) file goes away or is taken over by another file: open descriptors keep denoting the file
